@@ -2,6 +2,7 @@
 generated dataflow graphs / programs and reports the executed tape, the
 gradient, the rule-invocation log and the forward-mode tangent."""
 import json
+import numpy as onp
 import random
 import sys
 
@@ -393,6 +394,41 @@ def main():
             out["errors"].append({"parents": P, "end": e, "error": "toposort: " + repr(ex)})
             continue
         out["topo"].append({"parents": P, "end": e, "order": order})
+    # a traced value handed to an operation BY KEYWORD is a dependency like any other: the derivative through it is right,
+    # or the call raises - the path never silently disappears
+    import autograd.numpy as _anp
+    from autograd import grad as _g2, make_jvp as _mj2
+    from autograd.extend import primitive as _prim2, defvjp as _dv2, defjvp as _dj2
+
+    @_prim2
+    def _scale(v, factor=1.0):
+        return v * factor
+    _dv2(_scale, lambda ans, v, factor=1.0: lambda g: g * factor)
+    _dj2(_scale, lambda g, ans, v, factor=1.0: g * factor)
+    c3 = onp.array([1.0, 2.0, 3.0])
+    kwprogs = [("user primitive, factor=x", lambda x: _anp.sum(_scale(c3, factor=x)), 6.0),
+               ("user primitive, traced argument and factor=x", lambda x: _anp.sum(_scale(c3 * x, factor=x)), 30.0),
+               ("full(fill_value=x)", lambda x: _anp.sum(_anp.full((2, 3), fill_value=x)), 6.0),
+               ("tensordot(a, b=...)", lambda x: _anp.sum(_anp.tensordot(c3, b=c3 * x, axes=1)), 14.0),
+               ("dot(a, b=...)", lambda x: _anp.dot(c3, b=c3 * x), 14.0),
+               ("where(c, a, y=...)", lambda x: _anp.sum(_anp.where(c3 > 1.5, c3, y=x * c3)), 1.0),
+               ("clip(a, a_min=, a_max=x)", lambda x: _anp.sum(_anp.clip(c3, a_min=0.0, a_max=x)), 1.0),
+               ("linspace(0, stop=x)", lambda x: _anp.sum(_anp.linspace(0.0, stop=x, num=3)), 1.5),
+               ("pad(constant_values=x)", lambda x: _anp.sum(_anp.pad(c3, 1, mode="constant", constant_values=x)), 2.0),
+               ("maximum(x1, x2=...)", lambda x: _anp.sum(_anp.maximum(c3, x2=x * c3)), 6.0),
+               ("power(x1, x2=x)", lambda x: _anp.sum(_anp.power(c3, x2=x)), float(onp.sum(c3 ** 2.5 * onp.log(c3)))),
+               ("array(object=[x, 2x])", lambda x: _anp.sum(_anp.array(object=[x, 2.0 * x])), 3.0),
+               ("concatenate(arrays=..)", lambda x: _anp.sum(_anp.concatenate([c3 * x, c3], axis=0)), 6.0)]
+    for name, fk, want in kwprogs:
+        for mode in ("rev", "fwd"):
+            out["dist"]["keyword-dependency"] = out["dist"].get("keyword-dependency", 0) + 1
+            try:
+                got = float(_g2(fk)(2.5)) if mode == "rev" else float(_mj2(fk)(2.5)(1.0)[1])
+            except Exception:
+                continue                                  # refused loudly
+            if abs(got - want) > 1e-9 * (1 + abs(want)):
+                out["errors"].append({"kind": "keyword-dependency", "program": name, "mode": mode,
+                                      "error": "d/dx = %r, true %r: the dependency through the keyword argument was dropped or mangled" % (got, want)})
     # graphs far deeper than Python's recursion limit (a loop of several thousand steps, a deep chain with skip
     # edges): the passes are iterative, so depth is only a matter of memory
     import sys as _sys
